@@ -268,6 +268,13 @@ def execOk (ro nosha load loaded : Bool) (log : List Ev) : Bool :=
 def loadedAfter (loaded : Bool) (log : List Ev) : Bool :=
   loaded || log.any (fun e => e.kind == .scriptLoad && e.cls == .ok)
 
+/-- how often the server may run the body for one `Exec`. `resend`: the client re-sends commands
+    tagged retryable after a transport error (rueidis clients with retries enabled). Without
+    re-sending: at most once, whatever the script. With re-sending: more than once only for
+    read-only scripts (harmless) and the *Retryable constructors (explicit opt-in). -/
+def bodyRunsOk (ro retryable resend : Bool) (runs : Nat) : Bool :=
+  decide (runs ≤ 1) || (resend && (ro || retryable))
+
 def clsOf (k : Kind) (r : Reply) : Cls :=
   if k == .scriptLoad then
     match r with
